@@ -409,7 +409,9 @@ def make_Triangle(obj, **kwargs) -> Union[Dict[str, Any], List[Dict[str, Any]]]:
             else obj.magnetization
         )
         if np.all(np.cross(magnetization, vec) == 0):
-            epsilon = 1e-3 * vec
+            # offset by a thousandth of the facet's length scale (vec has the dimension of an area)
+            vec_len = np.linalg.norm(vec)
+            epsilon = 1e-3 * vec / np.sqrt(vec_len) if vec_len > 0 else vec
             vert = np.concatenate([vert - epsilon, vert + epsilon])
             side_faces = [
                 [0, 1, 3],
